@@ -763,6 +763,60 @@ pub fn run_c10(job: &Value) {
             }
         }};
     }
+    // a tree that the API hands out as valid must not carry a negative current weight (it could not be sampled
+    // with probability weight / total): vectors with one negative entry at every position, through new(), and a
+    // negative weight through update() / push() on a valid tree
+    macro_rules! negative {
+        ($W:ty, $neg:expr) => {{
+            let neg: $W = $neg;
+            let vals: [$W; 4] = [1 as $W, 3 as $W, 5 as $W, 0 as $W];
+            let mut probes = 0u64;
+            let mut check = |desc: String, t: &WeightedTreeIndex<$W>, nviol: &mut u64| {
+                probes += 1;
+                if t.is_valid() {
+                    let zero: $W = Default::default();
+                    let bad: Vec<usize> = (0..t.len()).filter(|&i| t.get(i) < zero).collect();
+                    if !bad.is_empty() {
+                        *nviol += 1;
+                        if *nviol <= 3 {
+                            emit(&json!({"ev": "viol", "wt": stringify!($W), "kind": "valid_tree_negative_weight", "tree": desc, "msg": format!("is_valid() is true but get({}) is negative", bad[0]), "profile": profile}));
+                        }
+                    }
+                }
+            };
+            for len in 1..=7usize {
+                for pos in 0..len {
+                    for rot in 0..4usize {
+                        let mut ws: Vec<$W> = (0..len).map(|i| vals[(i + rot) % 4]).collect();
+                        ws[pos] = neg;
+                        if let Caught::Ok(Ok(t)) = guarded(|| WeightedTreeIndex::<$W>::new(ws.clone())) {
+                            check(format!("new({ws:?})"), &t, &mut nviol);
+                        }
+                        let base: Vec<$W> = (0..len).map(|i| vals[(i + rot) % 4]).collect();
+                        if let Ok(mut t) = WeightedTreeIndex::<$W>::new(base.clone()) {
+                            let _ = guarded(std::panic::AssertUnwindSafe(|| t.update(pos, neg)));
+                            check(format!("new({base:?}).update({pos}, {neg:?})"), &t, &mut nviol);
+                            let _ = guarded(std::panic::AssertUnwindSafe(|| t.push(neg)));
+                            check(format!("new({base:?}).update({pos}, {neg:?}) then push({neg:?})"), &t, &mut nviol);
+                        }
+                    }
+                }
+            }
+            emit(&json!({"ev": "c10_negative", "wt": stringify!($W), "probes": probes}));
+        }};
+    }
+    if shard == 0 {
+        match part {
+            "i8" => negative!(i8, -1),
+            "i16" => negative!(i16, -1),
+            "i32" => negative!(i32, -1),
+            "i64" => negative!(i64, -1),
+            "i128" => negative!(i128, -1),
+            "f32" => negative!(f32, -1.0),
+            "f64" => negative!(f64, -1.0),
+            _ => {}
+        }
+    }
     if shard == 0 {
         match part {
             "u8" => tiny!(u8),
